@@ -368,6 +368,7 @@ def run(tier, seed):
             continue
         for k, sh in enumerate(r["shots"]):
             one = dict(r, shots=[sh], status=sh["status"])
+            one.pop("stderr", None)      # job-wide: holds the end-of-run reports of all N executions
             d = qrender.compare(b, infos[i], one, echo_on=jobs[i]["echo"])
             shots_checked += 1
             if d:
